@@ -3,8 +3,8 @@
    translation, and the table checker that the correspondence run applies to every table of every serialized profile.
    and the per-thread frame / func / resource / string tables (Model/FrameTables.v).
    Marker payloads (Model/MarkerTable.v): the flat field-value vectors and their consumption at serialization time.
-   Not yet modelled (their theorems are absent, the run-time checker covers their tables): symbolicated frames
-   with inline depth, counter sample columns (C04 covers their ordering); see DESIGN.md 9. *)
+   Not modelled (their theorems are absent, the run-time checker covers their tables): JS frames and frame flags, subcategories,
+   allocation samples, counter sample columns (C04 covers their ordering); see DESIGN.md 9. *)
 From SV Require Import Model.ProfileTables Proofs.ProfileTablesProofs Model.FrameTables Proofs.FrameTablesProofs Proofs.ThreadOrderProofs Model.MarkerTable Proofs.MarkerTableProofs.
 From Coq Require Import Permutation.
 
@@ -39,9 +39,11 @@ Theorem C03_finite_paths :
   forall tbl : list stack_key, prefix_earlier tbl -> forall i, i < length tbl -> exists fs, path tbl (Some i) fs.
 Proof. exact wf_prefix_walk_terminates. Qed.
 
-(* frame / func / resource / string tables: for ANY sequence of label frames, native frames with and without symbols (into libraries that exist) and string
-   conversions, all columns have their table's length and every stored index points into its table:
-   frame -> func and native symbol, func -> name string and resource, resource -> library and name string, native symbol -> library and name string *)
+(* frame / func / resource / string / native-symbol tables: for ANY sequence of label frames (with and without source location), native frames with
+   and without symbols (into libraries that exist), native-symbol handles, already symbolicated frames with any inline depth, name, file and line
+   (address inside a library or nowhere) and string conversions, all columns have their table's length and every stored index points into its table:
+   frame -> func and native symbol, func -> name string, file-name string and resource, resource -> library and name string,
+   native symbol -> library and name string *)
 Theorem C03_table_indices :
   forall (nlibs : nat) (rs : list freq), Forall (req_ok nlibs) rs -> tt_wf nlibs (run_reqs rs).
 Proof. exact run_reqs_wf. Qed.
@@ -126,9 +128,18 @@ Example ex_c03 :
 Proof. vm_compute. repeat split. Qed.
 
 Example ex_c03_tables :
-  let t := run_reqs [FLabel 7; FNative 0 256 8 9; FString 5; FNativeSym 0 516 512 10 9; FNativeSym 0 520 512 10 9; FLabel 7] in
-  (tt_strings t, tt_res_lib t, tt_res_name t, tt_funcs t, tt_func_res t, tt_frame_func t, tt_ns t, tt_ns_name t) =
-  ([7; 8; 9; 5; 10]%N, [0], [2], [(0, None); (1, Some 0); (4, Some 0)], [None; Some 0; Some 0], [0; 1; 2; 2], [(0, 512%N)], [4]).
+  let t := run_reqs [FLabel 7; FNative 0 256 8 9; FString 5; FNativeSym 0 516 512 10 9; FNativeSym 0 520 512 10 9; FLabel 7;
+                     (* a native symbol handle, then the same address again as an inlined frame (depth 1) with its own name, file and line;
+                        a symbolicated frame whose address is in no library; a label frame with a source location *)
+                     FNs 0 512 10; FSymbolicated (Some (0, 520%N)) 99 0 512 (Some 11%N) (Some 12%N) (Some 7%N) None 1 9;
+                     FSymbolicated None 13 0 512 None None None None 0 9; FLabelLoc 7 (Some 12%N) (Some 3%N) (Some 1%N)] in
+  (tt_strings t, tt_res_lib t, tt_res_name t, map fu_name (tt_funcs t), map fu_file (tt_funcs t), tt_func_res t, tt_frame_func t,
+   map (fun k => match fk_native k with Some ni => Some (ni_rel ni, ni_ns ni, ni_depth ni) | None => None end) (tt_frames t),
+   map fk_line (tt_frames t), tt_ns t, tt_ns_name t) =
+  ([7; 8; 9; 5; 10; 11; 12; 13]%N, [0], [2], [0; 1; 4; 5; 7; 0], [None; None; None; Some 6; None; Some 6], [None; Some 0; Some 0; Some 0; None; None],
+   [0; 1; 2; 2; 3; 4; 5],
+   [None; Some (256%N, None, 0%N); Some (516%N, Some 0, 0%N); Some (520%N, Some 0, 0%N); Some (520%N, Some 0, 1%N); None; None],
+   [None; None; None; None; Some 7%N; None; Some 3%N], [(0, 512%N)], [4]).
 Proof. vm_compute. reflexivity. Qed.
 
 Example ex_c03_markers :
